@@ -333,6 +333,53 @@ pub fn judge_path(case: &Case, oc: &OracleCell, path: &Path, trace: &Trace, ci: 
     }
 }
 
+/// Waypoints of a successful plan that no collision check of the run was asked about. Not a
+/// verdict; it tells the fault injector where an obstacle would matter.
+pub fn unchecked_waypoints(obs: &Obs) -> Vec<[f64; 6]> {
+    let Ok(path) = &obs.result else { return vec![] };
+    let checked: std::collections::HashSet<u64> = obs
+        .trace
+        .events
+        .iter()
+        .enumerate()
+        .filter(|(_, (_, k))| *k == Kind::Collision)
+        .map(|(i, _)| obs.trace.where_[i].1)
+        .collect();
+    path.iter().skip(1).filter(|w| !checked.contains(&probe::joints_key(&w.0))).map(|w| w.0).collect()
+}
+
+/// Guided fault placement: the same run (recorded random outcomes and schedule) in a cell with one
+/// more obstacle, placed where the robot is at a waypoint nobody collision-checked.
+pub fn guided_cases(case: &Case, ci: usize, out: &SimOut<Obs>) -> Vec<Case> {
+    let Ok(obs) = &out.result else { return vec![] };
+    let oc = OracleCell::new(&case.cell);
+    let mut cases = Vec::new();
+    for node in unchecked_waypoints(obs).into_iter().take(2) {
+        let poses = oracle::link_poses(&oc, &node);
+        let (mesh, pose) = match &oc.tool {
+            Some(t) => (t, poses[5]),
+            None => (&oc.links[4], poses[4]),
+        };
+        use parry3d::shape::Shape;
+        let c = mesh.compute_aabb(&pose).center();
+        let mut cell = case.cell.clone();
+        cell.env.push(EnvSpec {
+            mesh: MeshSpec::cube([0.02, 0.02, 0.02], [0.0; 3], 1),
+            pose: PoseSpec { t: [c.x as f64, c.y as f64, c.z as f64], rpy: [0.0; 3] },
+        });
+        let oc2 = OracleCell::new(&cell);
+        let b = oracle::brute_q(&oc2, &case.from, &cell.safety);
+        if b.any_definite() || b.any_dont_care() {
+            continue;
+        }
+        let mut c2 = case.clone();
+        c2.cell = cell;
+        c2.cfgs = vec![minimise::with_replay(&case.cfgs[ci], out.schedule.clone(), Some(out.rng_record.clone()))];
+        cases.push(c2);
+    }
+    cases
+}
+
 pub fn judge(case: &Case) -> Vec<Fail> {
     let robot = Arc::new(case.cell.build_probed_robot());
     judge_with(case, &robot, &mut |_, _| {})
@@ -494,7 +541,7 @@ pub fn tier(name: &str) -> Tier {
 pub fn gen_case(seed: u64, shard: u64, run: u64, t: &Tier) -> Option<(Case, &'static str)> {
     let mut w = Rng::derive(seed, shard, run, "c12.workload");
     let mut knobs = Rng::derive(seed, shard, run, "c12.knobs");
-    let layout = *knobs.pick(&["free", "free", "grazing", "blocking"]);
+    let layout = *knobs.pick(&["free", "free", "grazing", "blocking", "approach"]);
     let k = CellKnobs {
         tool_p: 0.7,
         base_p: 0.6,
@@ -543,8 +590,20 @@ pub fn gen_case(seed: u64, shard: u64, run: u64, t: &Tier) -> Option<(Case, &'st
         clampq(&mut q);
         curve.push(q);
     }
-    // obstacles relative to a posture on the stroke
-    let anchor = curve[w.below(curve.len())];
+    // obstacles relative to a posture on the stroke; in the "approach" layout relative to a
+    // posture between the (future) start configuration and the landing configuration, so that the
+    // onboarding move has something to go around
+    let approach_dir: [f64; 6] = std::array::from_fn(|_| w.range_f64(-0.5, 0.5));
+    let anchor = if layout == "approach" {
+        let mut q = q_land;
+        for j in 0..6 {
+            q[j] += approach_dir[j] * 0.5;
+        }
+        clampq(&mut q);
+        q
+    } else {
+        curve[w.below(curve.len())]
+    };
     if layout != "free" || w.chance(0.3) {
         let mut kk = k;
         kk.sparse = layout == "free";
@@ -565,7 +624,7 @@ pub fn gen_case(seed: u64, shard: u64, run: u64, t: &Tier) -> Option<(Case, &'st
     for _ in 0..40 {
         let mut q = q_land;
         for j in 0..6 {
-            q[j] += w.range_f64(-0.5, 0.5);
+            q[j] += if layout == "approach" { approach_dir[j] * w.range_f64(0.9, 1.3) } else { w.range_f64(-0.5, 0.5) };
         }
         clampq(&mut q);
         let b = oracle::brute_q(&oc, &q, &cell.safety);
@@ -581,9 +640,29 @@ pub fn gen_case(seed: u64, shard: u64, run: u64, t: &Tier) -> Option<(Case, &'st
     let steps = poses[1..poses.len() - 1].to_vec();
     let mut cfgs = Vec::new();
     let rng_seed = simctx::mix(&[seed, shard, run, simctx::name_hash("c12.rng")]);
+    let rrt_step = w.range_f64(1.0, 10.0f64).to_radians();
+    // adversarial RRT samples: exactly the start, and points within one planner step of it
+    let two_pi = 2.0 * std::f64::consts::PI;
+    let target = |v: &[f64; 6]| -> Vec<f64> { (0..6).map(|j| (v[j] - lf[j]).rem_euclid(two_pi)).collect() };
+    let mut abs = vec![target(&from)];
+    for _ in 0..3 {
+        let mut q = from;
+        let mut dirv: [f64; 6] = std::array::from_fn(|_| w.range_f64(-1.0, 1.0));
+        let n = dirv.iter().map(|x| x * x).sum::<f64>().sqrt().max(1e-9);
+        for x in dirv.iter_mut() {
+            *x /= n;
+        }
+        let frac = w.range_f64(0.3, 0.98);
+        for j in 0..6 {
+            q[j] += dirv[j] * rrt_step * frac;
+        }
+        abs.push(target(&q));
+    }
+    let adversarial = *knobs.pick(&[0.0, 0.0, 0.1, 0.5]);
     for s in 0..t.schedules {
         let sched_seed = simctx::mix(&[seed, shard, run, s as u64, simctx::name_hash("c12.sched")]);
         let mut cfg = SimCfg::swarm(&mut knobs, sched_seed, rng_seed, 4_000_000);
+        cfg.rng = sim::RngSpec::Stream { seed: rng_seed, adversarial, abs: abs.clone(), period: 6 };
         // the first configuration is the sequential reference; nested collision checks mostly inline
         if s == 0 {
             cfg.pool = 1;
@@ -602,7 +681,7 @@ pub fn gen_case(seed: u64, shard: u64, run: u64, t: &Tier) -> Option<(Case, &'st
         max_transition_cost: w.range_f64(1.0, 30.0f64).to_radians(),
         recursion_depth: w.below(9),
         include_lin: w.chance(0.5),
-        rrt_step: w.range_f64(1.0, 10.0f64).to_radians(),
+        rrt_step,
         rrt_max_try: *w.pick(&[1, 5, 30, 100, 300]),
         cfgs,
     };
@@ -624,8 +703,12 @@ pub fn run(tier_name: &str, seed: u64) -> i32 {
             let scen_hash = simctx::name_hash(&serde_json::to_string(&(&case.cell, &case.from, &case.land, &case.steps, &case.park)).unwrap());
             let mut sample: Option<Value> = None;
             let mut any_ok = false;
+            let mut guided: Vec<Case> = Vec::new();
             let fails = judge_with(&case, &robot, &mut |ci, out| {
                 tally.evaluations += 1;
+                if ci <= 1 && guided.len() < 2 {
+                    guided.extend(guided_cases(&case, ci, out));
+                }
                 let c = &out.counters;
                 tally.bump("sched_steps", c.steps);
                 tally.bump("sched_branching_points", c.branching);
@@ -694,6 +777,23 @@ pub fn run(tier_name: &str, seed: u64) -> i32 {
                 tally.bump(&format!("scenarios_with_a_successful_plan_{layout}"), 1);
             }
             let mut seen = BTreeSet::new();
+            for g in guided {
+                tally.bump("fault_obstacle_placed_on_unchecked_waypoint", 1);
+                tally.evaluations += 1;
+                for f in judge(&g) {
+                    if !seen.insert((f.clause.clone(), f.signature.clone())) {
+                        continue;
+                    }
+                    tally.bump("raw_failures", 1);
+                    tally.violations.push(Violation {
+                        property: "C12".into(),
+                        clause: f.clause.clone(),
+                        signature: f.signature.clone(),
+                        detail: format!("{} [obstacle placed at a waypoint the planner never collision-checked]", f.detail),
+                        case: json!({"check": "C12", "case": g}),
+                    });
+                }
+            }
             for f in fails {
                 if !seen.insert((f.clause.clone(), f.signature.clone())) {
                     continue;
